@@ -168,17 +168,17 @@ and nothing from ignored lines.
 (The token-level grammar of a single line is shared between model and specification, see
 `Model/Spec/Format.lean`; what is proved is everything between lines.) -/
 theorem reader_refines_spec (O : Oracles) (fileName text : Bytes) :
-    (readAll O fileName text).map Rec.abs = (read O fileName [] [] text).1.map SRec.abs ∧
+    (readAll O fileName text).map Rec.abs = (Spec.Format.read O fileName [] [] text).1.map SRec.abs ∧
     (∀ r, Rec.result r ∈ readAll O fileName text → (r.config.map Cfg.key).Nodup) ∧
     (finalState O (RState.zero.reset fileName []) (splitLines text)).units =
-      (read O fileName [] [] text).2 := by
+      (Spec.Format.read O fileName [] [] text).2 := by
   have hl := reset_linked RState.zero fileName []
   obtain ⟨h1, h2, _, _⟩ := readLines_refines O (splitLines text) _ _ hl
   refine ⟨?_, ?_, ?_⟩
-  · unfold readAll read
+  · unfold readAll Spec.Format.read
     rw [h1, lines_eq]; rfl
   · exact readLines_nodup O (splitLines text) _ _ hl
-  · unfold read
+  · unfold Spec.Format.read
     rw [h2, lines_eq]; rfl
 
 /-- **scan_iterates.** `Scan`/`Result` with the `q`/`qPos` queue is an iterator over
@@ -195,9 +195,10 @@ theorem scan_iterates (O : Oracles) (r : Reader) :
   · simp only [hq, ↓reduceIte, Reader.pending, Reader.result]
     have hd : r.q.drop (r.qPos + 1) = r.q[r.qPos + 1] :: r.q.drop (r.qPos + 1 + 1) :=
       List.drop_eq_getElem_cons hq
-    refine ⟨fun _ => ?_, fun h => by simp at h⟩
-    rw [hd]
-    simp [List.getElem?_eq_getElem hq]
+    refine ⟨fun _ => ⟨?_, ?_, ?_⟩, fun h => by simp at h⟩
+    · rw [hd]; simp [List.getElem?_eq_getElem hq]
+    · rw [hd]; rfl
+    · rw [hd]; exact List.cons_ne_nil _ _
   · simp only [hq, ↓reduceIte, Reader.pending, Reader.result]
     have hd : r.q.drop (r.qPos + 1) = [] := List.drop_eq_nil_of_le (by omega)
     have hf := fill_spec O r.lines r.st
@@ -237,12 +238,12 @@ theorem files_no_leak (O : Oracles) (fs : FS) (inputs : List Input) :
       simp only
       have hl := reset_linked st inp.path [(dotFile, inp.label)]
       obtain ⟨h1, h2, _, _⟩ := readLines_refines O (splitLines text) _ _ hl
-      have hread : read O inp.path (CMap.assign [] dotFile inp.label false) st.units text =
+      have hread : Spec.Format.read O inp.path (CMap.assign [] dotFile inp.label false) st.units text =
           readFrom O (st.reset inp.path [(dotFile, inp.label)]).fileName
             (List.foldl (fun m kv => CMap.assign m kv.1 kv.2 false) [] [(dotFile, inp.label)])
             (st.reset inp.path [(dotFile, inp.label)]).units
             ((st.reset inp.path [(dotFile, inp.label)]).line + 1) (splitLines text) := by
-        unfold read; rw [lines_eq]; rfl
+        unfold Spec.Format.read; rw [lines_eq]; rfl
       rw [hread]
       have := ih (finalState O (st.reset inp.path [(dotFile, inp.label)]) (splitLines text))
         (if inp.isStdin = true then [] else stdin)
